@@ -88,6 +88,10 @@ def random_config(rng: random.Random, *, rl: bool = False, heavy: bool = True) -
     # best-batch needs at least its batch size of existing points: make the first sampler's batch large enough
     need = max([b for n, b in lineup if n == "BestBatchSampler"] + [2])
     lineup[0][1] = max(lineup[0][1], need)
+    if rl:
+        for entry in lineup:
+            if entry[0] == "HaltonSampler":
+                entry[1] = max(entry[1], need)      # whichever Halton sampler the scheduler takes as its bootstrap sampler
     lo = [rng.choice([-1.0, 0.0, 0.5]) for _ in range(d)]
     bounds = [lo, [x + rng.choice([1.0, 2.0]) for x in lo]]
     prec = [rng.choice([0.01, 0.05, 0.001]) for _ in range(d)]
